@@ -362,6 +362,15 @@ def main():
     if argv and argv[0] == "replay":
         doc = json.load(open(argv[1]))
         label = doc.get("clause")
+        if doc.get("fuzz"):
+            # witness found by the seeded native search: regenerate the same input sequence
+            ans = fuzz_one(dict(doc["fuzz"], module=doc["module"], name=doc["obligation"], budget_s=600))
+            print(json.dumps(ans, indent=1)[:3000])
+            if label in (ans.get("failed") or {}) or (label == "no-escape" and ans.get("escaped")):
+                print(f"REPRODUCED: clause {label} is violated by the real code on the seeded random input shown")
+                sys.exit(1)
+            print("not reproduced")
+            sys.exit(0)
         ans = run_with_repair({"module": doc["module"], "name": doc["obligation"], "inputs": doc.get("inputs"), "label": label})
         bad = [l for l, ok in ans["labels"] if not ok]
         print(json.dumps(ans, indent=1))
